@@ -488,6 +488,39 @@ struct HashMgrSim : Sim {
                 return buf;
         }
 
+        // Before an idle stream is abandoned and its context restarted with FIRST, one more UPDATE segment whose *content* comes from
+        // the hidden stream is hashed into it (same length in both executions of a C20 pair, so scheduling is unaffected): the context's
+        // hash state, partial block and counters before FIRST then differ between the two executions, as C20 quantifies
+        // ("context memory before FIRST/init"). All calls are legal API use.
+        void scramble_abandoned_stream(St &s, int ci, const Op &o)
+        {
+                Env &e = *s.env;
+                Client &c = s.cl[ci];
+                uint32_t len = 1 + (uint32_t) ((o.c >> 3) % (3 * s.d->block));
+                uint8_t *buf = e.mem.alloc(len, 1, (Place) ((o.d >> 4) % 3), &e.hidden, "segment of a stream about to be abandoned", R_INPUT, (size_t) ((o.d >> 6) % 64));
+                e.mem.snapshot(buf);
+                c.ref.update(buf, len); // (the stream is abandoned right afterwards; kept exact in case it is not)
+                c.total += len;
+                c.nseg++;
+                c.last_sent = false;
+                s.r->cov.hit("fault_abandoned_stream_with_hidden_content_before_restart");
+                e.ev(mix64(OP_SUBMIT, 0xaba0000ull ^ ((uint64_t) ci << 40) ^ len));
+                int rc;
+                uint64_t ret = do_submit(s, c.ctx, buf, len, ISAL_HASH_UPDATE, &rc);
+                e.obs(0x11, (uint64_t) rc);
+                if (ret == (uint64_t) (uintptr_t) c.ctx) {
+                        e.obs(0x10, (uint64_t) ci);
+                        handed_back(s, ci, "its own submit", false);
+                } else {
+                        c.in_flight = true;
+                        s.inflight++;
+                        process_return(s, ret, ci, "submit");
+                }
+                post_call_invariants(s, "submit");
+                for (int guard = 0; c.in_flight && guard < 64 && !(s.giant_inflight && s.inflight < 2); guard++)
+                        op_flush(s, false);
+        }
+
         void op_submit(St &s, const Op &o, bool force_first, bool zero_last)
         {
                 Env &e = *s.env;
@@ -502,7 +535,11 @@ struct HashMgrSim : Sim {
                 if (el.empty())
                         return;
                 int ci = el[o.a % el.size()];
+                if (force_first && s.cl[ci].started && !s.cl[ci].in_flight && (o.d & 0x300) != 0)
+                        scramble_abandoned_stream(s, ci, o);
                 Client &c = s.cl[ci];
+                if (c.in_flight)
+                        return; // (only after a failed scramble: the manager did not give the context back)
                 uint32_t flags;
                 bool begin = !c.started || force_first;
                 if (zero_last)
